@@ -407,7 +407,9 @@ def run_property(prop, tier="quick", only=None, keep=False, update_lock=False, v
     lock = load_json(lock_path, {})
     known = [k for k in load_json(os.path.join(VERIF, "known_findings.json"), {}).get("findings", []) if k.get("property") == prop]
     results: List[JobResult] = []
-    with cf.ThreadPoolExecutor(max_workers=NPROC) as ex:
+    # a plan may lower the number of jobs run at once for a tier whose jobs are memory-hungry (MAX_PARALLEL = {tier: n})
+    nproc = min(NPROC, getattr(plan, "MAX_PARALLEL", {}).get(tier, NPROC))
+    with cf.ThreadPoolExecutor(max_workers=nproc) as ex:
         futs = {ex.submit(run_job, j, prop, keep): j for j in jobs}
         for fu in cf.as_completed(futs):
             r = fu.result()
